@@ -115,11 +115,11 @@ func c03Draw(rt *rapid.T) *c03Case {
 	c := &c03Case{}
 	c.fileLimit = rapid.SampledFrom([]int64{30, 100, 600, 5000, 1 << 30}).Draw(rt, "fileLimit")
 	big := rapid.IntRange(0, 3).Draw(rt, "big") == 0
-	nc := rapid.IntRange(1, 3).Draw(rt, "cycles")
+	nc := rapid.IntRange(1, ev.Pick(3, 4)).Draw(rt, "cycles")
 	for i := 0; i < nc; i++ {
 		var cy c03Cycle
 		if i == 0 {
-			cy.ops = c03DrawOps(rt, 1, 9, big)
+			cy.ops = c03DrawOps(rt, 1, ev.Pick(9, 14), big)
 		} else {
 			cy.ops = c03DrawOps(rt, 0, 6, big)
 			cy.sel = rapid.IntRange(0, 1<<16).Draw(rt, "sel")
@@ -278,7 +278,7 @@ func (w *c03World) closeForCrash() (tailPath string, bounds []int64, lo int64, m
 	tailPath = fmt.Sprintf("%s_%d", w.id, t.idx)
 	base := t.size - u
 	if base < 0 {
-		return "", nil, 0, fmt.Sprintf("after Close the tail segment has %d bytes, fewer than the %d bytes appended since the last sync", t.size, u)
+		return "", nil, 0, fmt.Sprintf("Close() returned without error but the tail segment has %d bytes, fewer than the %d bytes appended since the last sync: appended records are not in the file", t.size, u)
 	}
 	for _, r := range rel {
 		bounds = append(bounds, base+r)
@@ -429,7 +429,7 @@ func c03Head(b []byte) []byte {
 }
 
 func (w *c03World) fork() *c03World {
-	nd, err := os.MkdirTemp("", "c03f")
+	nd, err := os.MkdirTemp(c03Root, "c03f")
 	if err != nil {
 		ev.Inconclusive("C03 mkdtemp %v", err)
 	}
@@ -509,7 +509,7 @@ type c03Result struct {
 
 // c03Run executes the case; for the first crash every candidate cut runs on its own copy.
 func c03Run(c *c03Case, each func(r *c03Result)) {
-	dir, err := os.MkdirTemp("", "c03")
+	dir, err := os.MkdirTemp(c03Root, "c03")
 	if err != nil {
 		ev.Inconclusive("C03 mkdtemp %v", err)
 	}
@@ -579,12 +579,43 @@ func c03Report(rec *ev.Rec, desc string, failure *string) func(r *c03Result) {
 	}
 }
 
+// c03Root is where the scratch directories are created. Durability is modelled by the harness
+// (truncation of the tail), the real cost of fsync only slows the check down (several fsyncs per
+// crash point; minutes when the disk is busy), so a tmpfs is preferred when there is one;
+// otherwise TMPDIR. The root is removed when the test ends.
+var c03Root string
+var c03OnTmpfs bool
+
+func c03SetupRoot(t *testing.T) {
+	c03Root = ""
+	for _, base := range []string{"/dev/shm", ""} {
+		if base != "" {
+			if fi, err := os.Stat(base); err != nil || !fi.IsDir() {
+				continue
+			}
+		}
+		d, err := os.MkdirTemp(base, "verif-c03-")
+		if err != nil {
+			continue
+		}
+		c03Root = d
+		c03OnTmpfs = base != ""
+		t.Cleanup(func() { _ = os.RemoveAll(d) })
+		return
+	}
+	ev.Inconclusive("C03 cannot create a scratch directory")
+}
+
 func TestC03(t *testing.T) {
-	rec := ev.New("C03", "histories of append/sync/shift/housekeep over the real file WAL with 1-3 crash/recover/append cycles and a final clean close (small scope: every history of <= N ops over {a0,a3,sync,shift}; plus rapid-drawn ones with boundary-biased record lengths up to 5000); a case = (history, cut of the first crash): every byte offset of the unsynced tail when it is <= 96 bytes, else frame boundaries +-{0,1,7,8,9} and drawn interior offsets, each executed on its own copy of the directory; non-trivial = some crash of the case cut strictly inside a frame (header or payload) or hit a log with more than one segment; distinct by (history, cut)")
+	c03SetupRoot(t)
+	rec := ev.New("C03", "histories of append/sync/shift/housekeep over the real file WAL with 1-3 (thorough 4) crash/recover/append cycles and a final clean close (small scope: every history of <= 4 (thorough 5) ops over {a0,a3,sync,shift}; plus rapid-drawn ones with boundary-biased record lengths up to 5000); a case = (history, cut of the first crash): every byte offset of the unsynced tail when it is <= 96 bytes, else frame boundaries +-{0,1,7,8,9} and drawn interior offsets, each executed on its own copy of the directory; non-trivial = some crash of the case cut strictly inside a frame (header or payload) or hit a log with more than one segment; distinct by (history, cut)")
 	defer rec.Flush(t)
 	t.Run("smallscope", func(t *testing.T) {
 		alphabet := []c03Op{{'a', 0}, {'a', 3}, {kind: 's'}, {kind: 'S'}}
-		maxLen := ev.Pick(3, 4)
+		maxLen := ev.Pick(4, 5)
+		if !c03OnTmpfs {
+			maxLen = ev.Pick(3, 4) // real fsyncs: keep the run time bounded
+		}
 		n := 0
 		var gen func(prefix []c03Op)
 		gen = func(prefix []c03Op) {
@@ -611,7 +642,11 @@ func TestC03(t *testing.T) {
 		rec.Extra("smallscope_histories", n)
 	})
 	t.Run("histories", func(t *testing.T) {
-		ev.Check(t, 60, 1200, func(rt *rapid.T) {
+		q, th := 300, 4000
+		if !c03OnTmpfs {
+			q, th = 60, 1000
+		}
+		ev.Check(t, q, th, func(rt *rapid.T) {
 			c := c03Draw(rt)
 			var failure string
 			c03Run(c, c03Report(rec, c.String(), &failure))
